@@ -97,3 +97,18 @@ def answer_passed_unchanged(O):
             R.fail(O, p, "the answer passes through %s before it is checked" % between[0].norm.split("::")[-1], extra=cond)
     if n == 0:
         O.inconclusive("vacuous: no successful read followed by an extraction")
+
+
+@obligation("C13/outputs-refiled-by-name", desc="EvalContext::set_outputs (<= 2 answer entries): the map that later expressions "
+            "read is rebuilt from exactly the (signal name, value) pairs of the answer at hand - also after an answer that "
+            "deviated from the first layout - so no later row computes from a value the driver reported for another signal")
+def outputs_refiled(O):
+    from . import C14
+    C14.outputs_map(dri.WithRep(O, rep()))
+
+
+@obligation("C13/constructor-call", desc="try_new: the constructor always makes its one output-reading call (also for a test "
+            "without any output-capable signal), and that call's error is what the constructor returns")
+def constructor_call(O):
+    from . import C02
+    C02.try_new(dri.WithRep(O, rep()))
